@@ -456,3 +456,37 @@ func H14c_concurrent() {
 	vrtAssert("C14.concurrent_written_in_place", vrtAnd(bf.buf[(c+fill)&bf.mask] == x0, bf.buf[(c+fill+1)&bf.mask] == x1))
 	vrtReach("C14.concurrent")
 }
+
+// H14w_write_ringsize: a chunk of exactly the ring's size (the largest a Write
+// can place) into an empty ring, at cursor positions where it does and does
+// not wrap: every byte is in place.
+func H14w_write_ringsize() {
+	bf, err := newBuffer(1)
+	if err != nil {
+		panic(err)
+	}
+	c := []int64{0, 1, 5000, bf.size - 1, 3*bf.size + 77}[vrtChoice("pos", 5)]
+	bf.cseq.set(c)
+	bf.pseq.set(c)
+	bf.pseq.gate = c
+	short := int64(vrtChoice("short_by", 2)) // size or size-1 bytes
+	p := make([]byte, bf.size-short)
+	for i := range p {
+		p[i] = byte(i*7 + 3)
+	}
+	probe := []int64{0, 1, int64(len(p)) / 2, int64(len(p)) - 2, int64(len(p)) - 1}
+	for _, i := range probe {
+		p[i] = vrtByte("b")
+	}
+	want := append([]byte(nil), p...)
+	n, werr := bf.Write(p)
+	vrtAssert("C14.write_result", n == len(p) && werr == nil)
+	vrtAssert("C14.write_cursor", vrtAnd(bf.pseq.get() == c+int64(len(p)), bf.cseq.get() == c))
+	for _, i := range probe {
+		vrtAssert("C14.write_bytes_in_place", bf.buf[(c+i)&bf.mask] == want[i])
+	}
+	for i := int64(0); i < int64(len(p)); i += 997 {
+		vrtAssert("C14.write_bytes_in_place", bf.buf[(c+i)&bf.mask] == want[i])
+	}
+	vrtReach("C14.write_ringsize")
+}
